@@ -67,6 +67,11 @@ def run_file(res, variant, d, fname, cmds, sig, note, follow=None, rss=False):
             bump(res, v[0].split(':')[0])
             res['viol'].append(('%s:%s:%s' % (sig, cmd[0], v[0]), '%s variant=%s argv=%r: %s %s' % (
                 note, variant, argv, v[0], v[1][-300:])))
+            if v[0] == 'timeout':
+                # a confirmed hang (limit x5 in all): further commands on the same file would each take as long
+                # and the file is already a reported violation
+                res['hung'] = True
+                return
         else:
             bump(res, r.status())
         if first and follow and r.exit == 0 and not r.sig and not r.timeout:
@@ -84,6 +89,8 @@ def w_file(case):
         fname = case['name']
         dfsrun.write(d, fname, data)
         for variant in case['variants']:
+            if res.get('hung'):
+                break
             run_file(res, variant, d, fname, case['cmds'], case['sig'], case.get('note', ''), case.get('follow'),
                      rss=(variant == 'plain'))
         res['nt'].append((case['name'], case.get('key')))
@@ -506,6 +513,8 @@ def flux_structure_image(case):
                     sec[2] = 255
                 elif k == 'sizecode-9':
                     sec = [t, 0, r, data, 9]
+                elif k.startswith('dmark-'):
+                    sec = [t, 0, r, data, 1, int(k[6:], 16)]
             secs.append(tuple(sec))
         if enc == 'FM':
             bits, _ = flux.fm_track(secs)
@@ -532,6 +541,8 @@ def w_fluxstruct(case):
         cmds = [['cat'], ['dump-sector', '0', str(case['track']), str(case['pos'])], ['type', '--binary', 'HELLO'], ['extract-unused', 'out'],
                 ['dump-sector', '0', '1', str(spt - 1)], ['sector-map']]
         for variant in ('san', 'plain'):
+            if res.get('hung'):
+                break
             run_file(res, variant, d, fname, cmds, 'C07:flux-structure:%s:%s' % (case['container'], case['oddity']),
                      'track %d sector %d %s' % (case['track'], case['pos'], case['oddity']), rss=(variant == 'plain'))
         res['nt'].append((case['container'], case['oddity'], case['track'], case['pos'], case.get('gz')))
@@ -553,6 +564,11 @@ def fam_fluxstruct(tier):
                 for pos in positions:
                     yield {'w': 'fluxstruct', 'container': cont, 'spt': spt, 'oddity': odd, 'track': track, 'pos': pos}
         yield {'w': 'fluxstruct', 'container': cont, 'spt': spt, 'oddity': 'size3', 'track': 1, 'pos': 3, 'gz': True}
+        # every data address mark value F8..FF (FB normal, F8 deleted, F9/FA the WD1771's alternative marks, FC..FF not data marks), CRC valid
+        for mk in range(0xF8, 0x100):
+            for track in (0, 1):
+                for pos in (range(spt) if tier == 'thorough' else (0, 1, spt - 1)):
+                    yield {'w': 'fluxstruct', 'container': cont, 'spt': spt, 'oddity': 'dmark-%02X' % mk, 'track': track, 'pos': pos}
 
 
 def worker(case):
